@@ -22,9 +22,9 @@ META = {
         "note": "Trusted: gosym thread model, stub network (announcement delivery decided by the harness), perfect hashing. Bounds: 2 replicas, STEPS<=4 quick / 6 thorough, one restart kind.",
     },
     "C03": {
-        "text": "Bounded model checking under a Dolev-Yao attacker: every combination of forged author fields is built with the real ipfs-log and delivered by both routes to a replica running the real Sync/replicator/Join/Verify/CanAppend code; plus symbolic-list unit checks of all three controllers. One class is a listed known finding (writer's id named in an entry signed by someone else); its complement is verified. An instance-level harness checks that each database of one orbitDB instance enforces its OWN write list (ipfs / manifest-less simple controllers resolved by createStore, non-writer entries by sync, direct channel and topic).",
+        "text": "Bounded model checking under a Dolev-Yao attacker: every combination of forged author fields is built with the real ipfs-log and delivered by both routes to a replica running the real Sync/replicator/Join/Verify/CanAppend code; plus symbolic-list unit checks of all three controllers. The class 'writer's id named in an entry signed by someone else' (formerly a known finding) was repaired in /repo and is verified like the rest. An instance-level harness checks that each database of one orbitDB instance enforces its OWN write list (ipfs / manifest-less simple controllers resolved by createStore, non-writer entries by sync, direct channel and topic).",
         "design_ref": "DESIGN.md §2 C03, §4",
-        "note": "Trusted: perfect symbolic cryptography, gosym. Known finding C03-id-not-bound-to-key is reported (KNOWN-FINDING line) and carved out.",
+        "note": "Trusted: perfect symbolic cryptography, gosym. The former known finding C03-id-not-bound-to-key was repaired in /repo (0e0edba): forged author fields incl. re-signed id signatures are now part of the verified space, nothing is carved out.",
     },
     "C04": {
         "text": "Bounded model checking of the hash check in Sync, the replicator's fetch-by-hash and Join's log-id / signature verification: every single-field mutation (new clock time fully symbolic), with or without re-addressing, by both routes; the tampered entry must be absent at quiescence, held entries intact, and the original still acceptable. A further harness links a valid entry to a chain of entries validly written for another database and checks, after replication, after restart + load (whole ancestry fetched as one log) and on a relayed replica, that nothing with a foreign log id is listed, a head, or served.",
